@@ -608,4 +608,68 @@ class MwOnly(Family):
         return f"{obs}:rules={len(case['rules'])}:cert={'y' if case['cid'] else 'n'}" + (":titan" if case["titan"] else "")
 
 
-FAMILIES = [Capsule(), MwOnly()]
+class PumpCert(Family):
+    """the whole path on the PyOpenSSL backend (the one that is used whenever client certificates matter): a real TLS
+    handshake with a client certificate (or none, or a look-alike, or the peer's own certificate FOLLOWED by an authorised
+    user's public certificate as extra chain certificate), TLSServerProtocol, GeminiServerProtocol, the real CertificateAuth:
+    the rule is applied to the certificate whose key took part in the handshake, and to no other"""
+
+    name = "pumpcert"
+    quick_n = 60
+    thorough_n = 1200
+
+    def gen(self, rng, n):
+        for i in range(n):
+            allowed = sorted(rng.sample([0, 1, 2, 3], rng.randint(0, 2))) if rng.random() < 0.8 else None
+            cert = [None, 0, 1, 2, 3, 4, 4, 4][i % 8] if i < 24 else rng.choice([None, 0, 1, 2, 3, 4, 4])
+            yield {"allowed": allowed, "require": rng.random() < 0.6, "cert": cert, "prefix": rng.choice(["/app/", "/", "/app/secret"]),
+                   "path": rng.choice(["/app/secret.gmi", "/app/", "/app", "/other"]), "cutseed": rng.randrange(1 << 30), "maxcuts": rng.choice([0, 1, 3])}
+
+    def impl(self, case):
+        from nauyaca.server.middleware import CertificateAuth, CertificateAuthConfig, CertificateAuthPathRule
+
+        from ..sim import pump as P
+        from .srvfam import get_loop
+
+        _, clients = P.env()
+        fps = None if case["allowed"] is None else {clients[i][2] for i in case["allowed"]}
+        rule = CertificateAuthPathRule(prefix=case["prefix"], require_cert=case["require"], allowed_fingerprints=fps)
+        pc = {"up": False, "mw": True, "handler": ["s", [20, "text/gemini", ["s", "secret"]]], "app": [("gemini://localhost" + case["path"] + "\r\n").encode().hex()],
+              "close_notify": False, "plaintext": None, "cutseed": case["cutseed"], "maxcuts": case["maxcuts"], "stall": None, "cert": case["cert"], "post": []}
+        loop = get_loop()
+        o = loop.run_until_complete(P.run_pump(loop, pc, mw_factory=lambda: CertificateAuth(CertificateAuthConfig(path_rules=[rule]))))
+        plain = bytes.fromhex(o["plain"]) if o["plain"] != "-" else b""
+        return {"status": plain[:2].decode("latin1"), "h": o["h"], "m": o["m"], "fp_seen": [a[2] for a in o["mwargs"]],
+                "fp_leaf": None if case["cert"] is None else clients[case["cert"]][2], "exc": o["exc"]}
+
+    def model(self, case):
+        # the model's decision for the certificate that took part in the handshake: id 1..4 for the four plain client certificates,
+        # 9 for the chained peer's own (never on a list); the list holds ids of the authorised certificates
+        cid = None if case["cert"] is None else (9 if case["cert"] == 4 else case["cert"] + 1)
+        rules = [[case["prefix"], case["require"], None if case["allowed"] is None else [i + 1 for i in case["allowed"]]]]
+        return " ".join(["cert", enc_rules(rules), core.cps(case["path"]), str(cid) if cid else "-", "-"])
+
+    def expect(self, case, out):
+        assert out.startswith("ok "), out
+        return out.split(" ")[2]
+
+    def same(self, exp, obs):
+        return (exp == "allow") == (obs["status"] == "20" and obs["h"] == 1) and (exp == "allow" or (obs["status"] == exp and obs["h"] == 0))
+
+    def oracle(self, case, obs):
+        if obs["fp_seen"] and obs["fp_seen"][0] != obs["fp_leaf"]:
+            return ("wrong-certificate-judged", f"the client authenticated with certificate {case['cert']} ({obs['fp_leaf']}), the access rule was applied to {obs['fp_seen'][0]}")
+        covered = any(c.startswith(case["prefix"]) for c in ([case["path"]] if case["path"].endswith("/") else [case["path"], case["path"] + "/"]))
+        if covered and obs["status"] == "20":
+            if case["require"] and case["cert"] is None:
+                return ("rule-bypassed", f"require_cert rule {case['prefix']!r} covers {case['path']!r}, no certificate presented, status 20")
+            if case["allowed"] is not None and (case["cert"] is None or case["cert"] not in case["allowed"]):
+                return ("rule-bypassed", f"rule {case['prefix']!r} with fingerprint list of certificates {case['allowed']} covers {case['path']!r}; the peer authenticated with "
+                                         f"certificate {case['cert']}{' (own key; certificate 0 merely appended to the chain)' if case['cert'] == 4 else ''} and got status 20")
+        return None
+
+    def key(self, case, obs):
+        return f"{obs['status']}|cert{case['cert']}|allowed{'N' if case['allowed'] is None else len(case['allowed'])}|req{int(case['require'])}"
+
+
+FAMILIES = [Capsule(), MwOnly(), PumpCert()]
